@@ -569,3 +569,34 @@ def a6(prog):
                              "msg": "%s returns `%s`, the stack produced by its sub-expression chain %s, instead of the outer stack: whatever the sub-expression did below the kept values (drop, swap, replace) leaks into the surrounding stack" % (q, vn, chain),
                              "detail": None})
     return inst, findings
+
+
+def a4b(prog):
+    """three-valued conjunction/disjunction of predicate results: fail is absorbing, otherwise boolean and/or (abstract evaluation
+    over the 3x3 domain)"""
+    from absint import Evaluator
+    inst, findings = [], []
+    enum = None
+    for e in prog.enums.values():
+        if e["q"] == "pred_result":
+            enum = {c["n"]: ("enum", c["n"], c["v"]) for c in e["consts"]}
+    if enum is None:
+        raise Broken("enum pred_result vanished")
+    ev = Evaluator({}, {})
+    for opname, fn in (("operator&&", lambda x, y: x and y), ("operator||", lambda x, y: x or y)):
+        fs = [f for f in prog.funcs.values() if f["n"] == opname and len(f["params"]) == 2 and f["params"][0]["t"] == "pred_result"]
+        if len(fs) != 1:
+            raise Broken("%s(pred_result, pred_result) vanished" % opname)
+        bad = []
+        for a in enum.values():
+            for b in enum.values():
+                r = ev.call(fs[0], None, [a, b])
+                want = "fail" if "fail" in (a[1], b[1]) else ("yes" if fn(a[1] == "yes", b[1] == "yes") else "no")
+                got = r[1] if isinstance(r, tuple) else r
+                if got != want:
+                    bad.append("%s %s %s = %s (expected %s)" % (a[1], opname[8:], b[1], got, want))
+        key = "A4b:" + opname
+        inst.append((key, {"table_ok": not bad}))
+        if bad:
+            findings.append({"key": key, "where": fs[0]["l"], "msg": "three-valued %s on predicate results is wrong: %s" % (opname[8:], "; ".join(bad[:3])), "detail": None})
+    return inst, findings
